@@ -61,7 +61,9 @@ func bucketName(b byte) string {
 	return db.Bucket(b).String()
 }
 
-func (o opInfo) sortKey() string { return fmt.Sprintf("%d/%s/%02x/%s/%d", o.kind, o.name, o.bucket, o.key, o.nops) }
+func (o opInfo) sortKey() string {
+	return fmt.Sprintf("%d/%s/%02x/%s/%d", o.kind, o.name, o.bucket, o.key, o.nops)
+}
 
 type preq struct {
 	info opInfo
@@ -70,12 +72,12 @@ type preq struct {
 
 // plan is what the scheduler injects during ONE scheduled execution.
 type plan struct {
-	cancelAtOp   int                       // cancel the context just before the j-th operation (1-based) executes
-	cancel       context.CancelFunc        //
-	failCommitAt int                       // the k-th commit returns errInjected, nothing applied
-	afterCommit  func(k int, info opInfo)  // called by the root once commit k is applied (crash image)
+	cancelAtOp   int                                           // cancel the context just before the j-th operation (1-based) executes
+	cancel       context.CancelFunc                            //
+	failCommitAt int                                           // the k-th commit returns errInjected, nothing applied
+	afterCommit  func(k int, info opInfo)                      // called by the root once commit k is applied (crash image)
 	onOp         func(j int, info opInfo, nParked, chosen int) // called by the root for every released op
-	choose       func(n int) int           // picks among n parked requests (sorted by content key)
+	choose       func(n int) int                               // picks among n parked requests (sorted by content key)
 	maxOps       int
 }
 
@@ -85,12 +87,12 @@ type sched struct {
 	parked []*preq
 	active bool
 	// results of the last execution
-	ops, commits   int
-	cancelFired    bool
-	cancelInfo     opInfo
-	commitFailed   bool
-	failInfo       opInfo
-	capped         bool
+	ops, commits int
+	cancelFired  bool
+	cancelInfo   opInfo
+	commitFailed bool
+	failInfo     opInfo
+	capped       bool
 }
 
 func (s *sched) gate(info opInfo) bool {
@@ -257,9 +259,11 @@ func (d *sdb) DeleteRange(a, b []byte) error {
 	return d.direct("deleterange", a, b, func() error { return d.inner.DeleteRange(a, b) })
 }
 
-func (d *sdb) NewBatch() db.Batch                 { return &sbatch{d: d, b: d.inner.NewIndexedBatch(), h: newDigest()} }
-func (d *sdb) NewBatchWithSize(int) db.Batch       { return d.NewBatch() }
-func (d *sdb) NewIndexedBatch() db.IndexedBatch    { return &sbatch{d: d, b: d.inner.NewIndexedBatch(), h: newDigest()} }
+func (d *sdb) NewBatch() db.Batch            { return &sbatch{d: d, b: d.inner.NewIndexedBatch(), h: newDigest()} }
+func (d *sdb) NewBatchWithSize(int) db.Batch { return d.NewBatch() }
+func (d *sdb) NewIndexedBatch() db.IndexedBatch {
+	return &sbatch{d: d, b: d.inner.NewIndexedBatch(), h: newDigest()}
+}
 func (d *sdb) NewIndexedBatchWithSize(int) db.IndexedBatch {
 	return d.NewIndexedBatch()
 }
